@@ -477,6 +477,7 @@ type world struct {
 
 	lastRange  rawdb.FilterMapsRange // last persisted index range (watched through the disk hook)
 	haveRange  bool
+	qobs       map[int]string
 	pulledDown map[uint64]bool // blocks that became "first indexed block" by the range being pulled down
 }
 
@@ -504,7 +505,7 @@ func (w *world) observe(s string) {
 	w.mu.Lock()
 	w.obs = w.obs.String(s).String("\n")
 	w.mu.Unlock()
-	if trace {
+	if trace || steps {
 		fmt.Println("OBS", s)
 	}
 }
@@ -835,6 +836,12 @@ func (h *logCapture) WithGroup(string) slog.Handler      { return h }
 
 var trace = os.Getenv("VERIF_TRACE") != ""
 
+// crashKey names the recorded finding "indexer panics when the target head is shortened to
+// the block the head renderer stands at" (see NOTES.md, F4).
+var steps = os.Getenv("VERIF_STEPS") != ""
+
+const crashKey = "crash:indexer-iterates-past-shortened-head"
+
 func (w *world) startFM(view *filtermaps.ChainView) {
 	cfg := filtermaps.Config{History: w.history, Disabled: w.p.Disabled, HashScheme: w.p.HashScheme}
 	fm, err := filtermaps.NewFilterMaps(w.indexKV, view, 0, 0, w.params, cfg)
@@ -1076,7 +1083,11 @@ func (w *world) runQuery(qid int, spec QuerySpec, phase string) {
 	if matchAll {
 		w.probe("query-match-all")
 	}
-	w.observe(fmt.Sprintf("query %s q%d [%d,%d] -> %d logs err=%v scans=%d", phase, qid, first, last, len(got), err, scans))
+	// concurrent queries finish in an order the simulator does not decide: their
+	// observations are filed per query and hashed in query order after the operation
+	w.mu.Lock()
+	w.qobs[qid] = fmt.Sprintf("query %s q%d [%d,%d] -> %d logs err=%v", phase, qid, first, last, len(got), err)
+	w.mu.Unlock()
 	ctxs := fmt.Sprintf("%s query q%d begin=%d end=%d (resolved [%d,%d], head %d) addrs=%v topics=%v", phase, qid, q.Begin, q.End, first, last, len(canon)-1, q.Addrs, q.Topics)
 	if err != nil {
 		v := simcore.Violf("query-error", "%s returned error %q instead of %d logs", ctxs, err.Error(), len(want))
@@ -1086,7 +1097,12 @@ func (w *world) runQuery(qid int, spec QuerySpec, phase string) {
 		if i := strings.LastIndex(err.Error(), "failed to retrieve log value pointer of block "); i >= 0 && strings.HasSuffix(err.Error(), "not found") {
 			var n uint64
 			fmt.Sscanf(err.Error()[i:], "failed to retrieve log value pointer of block %d", &n)
-			if r := w.fm.VerifIndexedRange(); r.Initialized && n < r.BlocksFirst {
+			// (the persisted range seen through the disk hook is used, not a locked accessor of
+			// the index: taking the index lock here would race with the indexer for it)
+			w.mu.Lock()
+			r, have := w.lastRange, w.haveRange
+			w.mu.Unlock()
+			if have && n < r.BlocksFirst {
 				v.Key = "query-error:lv-pointer-deleted-by-tail-unindex"
 				v.Msg += fmt.Sprintf(" (block %d is below the indexed range %d..%d now: its pointer was deleted by tail unindexing while the query ran)", n, r.BlocksFirst, r.BlocksAfterLast)
 			}
@@ -1133,9 +1149,10 @@ func (w *world) runQuery(qid int, spec QuerySpec, phase string) {
 			// that block starts in a map of an unindexed (deleted) epoch
 			w.mu.Lock()
 			marked := w.pulledDown[l.BlockNumber]
+			r, have := w.lastRange, w.haveRange
 			w.mu.Unlock()
-			if r := w.fm.VerifIndexedRange(); marked && r.Initialized && l.BlockNumber == r.BlocksFirst && r.BlocksAfterLast > r.BlocksFirst {
-				if ptr, err := rawdb.ReadBlockLvPointer(w.indexKV, l.BlockNumber); err == nil && uint32(ptr>>w.p.LogValuesPerMap) < r.MapsFirst {
+			if marked && have && l.BlockNumber == r.BlocksFirst && r.BlocksAfterLast > r.BlocksFirst {
+				if ptr, err := rawdb.ReadBlockLvPointer(w.indexKV.Mem(), l.BlockNumber); err == nil && uint32(ptr>>w.p.LogValuesPerMap) < r.MapsFirst {
 					v.Key = "logs-missing:first-indexed-block-starts-in-unindexed-map"
 					v.Msg += fmt.Sprintf(" (indexed range: blocks %d..%d, maps %d..%d; block %d starts at log value %d = map %d, which is unindexed)",
 						r.BlocksFirst, r.BlocksAfterLast-1, r.MapsFirst, r.MapsAfterLast-1, l.BlockNumber, ptr, ptr>>w.p.LogValuesPerMap)
@@ -1173,6 +1190,12 @@ func (w *world) runQueries(qs []QuerySpec, phase string, base int) {
 	}
 	for range qs {
 		<-done
+	}
+	for i := range qs {
+		w.mu.Lock()
+		o := w.qobs[base+i]
+		w.mu.Unlock()
+		w.observe(o)
 	}
 }
 
@@ -1226,7 +1249,7 @@ func (w *world) checkIdle(where string) {
 func Run(t *testing.T, pl any) *simcore.Result {
 	p := pl.(*Plan)
 	res := simcore.NewResult()
-	w := &world{p: p, res: res, getLogs: map[int]int{}, obs: simcore.NewHash(), lastFirst: -1, history: p.History, pulledDown: map[uint64]bool{}}
+	w := &world{p: p, res: res, getLogs: map[int]int{}, obs: simcore.NewHash(), lastFirst: -1, history: p.History, pulledDown: map[uint64]bool{}, qobs: map[int]string{}}
 	w.params = filtermaps.VerifParams(p.LogMapHeight, p.LogMapWidth, p.LogMapsPerEpoch, p.LogValuesPerMap, p.BaseRowGroupSize, p.BaseRowLengthRatio, p.LogLayerDiff)
 	for i, b := range p.Blocks {
 		if b.Parent >= i || b.Parent < -1 {
@@ -1258,7 +1281,7 @@ func Run(t *testing.T, pl any) *simcore.Result {
 		w.indexKV = simdisk.NewSimKV(nil)
 		w.sched = simsched.New(p.Tape, simsched.ModePoll)
 		w.sched.MaxSteps = 60000
-		if trace {
+		if trace || steps {
 			w.sched.KeepLog = true
 		}
 		w.indexKV.Sched = w.sched
@@ -1292,6 +1315,21 @@ func Run(t *testing.T, pl any) *simcore.Result {
 						continue
 					}
 					oldHead := w.head().number
+					// Recorded crash (known finding): if the target is shortened to an ancestor of
+					// the previous target while the head renderer stands exactly at that block, the
+					// log iterator steps past the new head and ChainView.BlockHash panics on the
+					// indexer goroutine, taking the process down. With the finding recorded the
+					// harness lets the indexer go idle first; without it the run crashes and is
+					// reported by the driver.
+					if simcore.IsKnown(crashKey) && nh.number < oldHead && int(nh.number) < len(w.canon) && w.canon[nh.number] == nh && !w.p.Disabled && oldHead > 0 {
+						if w.drain() {
+							w.fm.WaitIdle()
+						}
+						w.probe("shortened-head-serialised-to-avoid-known-crash")
+						w.mu.Lock()
+						w.res.KnownHit(crashKey)
+						w.mu.Unlock()
+					}
 					fork := w.setCanonical(nh)
 					if fork <= oldHead {
 						w.probe("reorg")
@@ -1344,7 +1382,7 @@ func Run(t *testing.T, pl any) *simcore.Result {
 	res.SchedFP = w.sched.FP()
 	res.Events = w.sched.Steps()
 	res.NonTrivial = w.sched.Choices() >= 2 && res.Probes["queries"] > 0
-	if trace {
+	if trace || steps {
 		for _, l := range w.sched.Trace {
 			fmt.Println("STEP", l)
 		}
